@@ -166,6 +166,10 @@ func Run(id string, start time.Time) int {
 				continue
 			}
 			part.Max("max_distinct_"+kind, int64(len(o.Count)))
+			if len(o.Count) > 1 && ObservedOnly[kind] {
+				part.Count("trees_varying_in_"+kind+"_not_judged", 1)
+				continue
+			}
 			if len(o.Count) > 1 {
 				report(part, t, kind, "", o, fmt.Sprintf("%d free-running loads (GOMAXPROCS 1,4,16) of one tree gave %d different values of %q", treeLoads, len(o.Count), kind))
 			}
@@ -224,6 +228,9 @@ func Run(id string, start time.Time) int {
 			return lks[i].kind < lks[j].kind
 		})
 		for _, k := range lks {
+			if ObservedOnly[k.kind] {
+				continue
+			}
 			m := perPerm[k]
 			within := false
 			all := map[string]bool{}
@@ -275,7 +282,7 @@ func Run(id string, start time.Time) int {
 			"every namespace is unique within a tree so that a hook arrival identifies its include entry",
 			"Setup error messages are compared by Go type only (a message may legitimately name whichever clash was met first)",
 			"tasks of the generated trees have no parallel deps, so the dry-run listing has no permitted interleaving",
-			"the order of variables inside a compiled task is reported as its own kind (compiled-var-order); it has no effect on the command lines that the dump also records",
+			"the order of the special variables (TASK, ROOT_DIR, ...) inside a compiled task's Vars is recorded (max_distinct_special-var-order, trees_varying_in_special-var-order_not_judged) but not judged: the statement requires 'the same variable values and command lines for every task', not an order of the entries of a task's variable set, and that order reaches no value, command line or output",
 		},
 		Exhaustive: &exh,
 		Extra: map[string]any{
@@ -340,9 +347,6 @@ func lineDiff(a, b string) string {
 func report(part *h.Partial, t *Tree, kind, cause string, o *Obs, what string) {
 	role := t.Shape
 	sigKind := kind
-	if kind == "special-var-order" {
-		sigKind, role = "compiled-var-order", "special-vars"
-	}
 	sig := fmt.Sprintf("C09 | %s | %s", sigKind, role)
 	if cause != "" {
 		sig += " | " + cause
